@@ -61,7 +61,7 @@ ASSUMPTIONS = [
 ]
 CLASSES = ["direct/elliptic", "direct/hyperbolic", "direct/dt>P", "direct/dt>100P", "direct/peri_high_e",
            "direct/dt<0", "direct/tiny_dt", "direct/near_parabolic", "direct/known_region", "direct/known_hang",
-           "direct/loose_tolerance"] + \
+           "direct/loose_tolerance", "terminates/in_hyperbolic_region", "terminates/known_hang"] + \
           ["step/%s:asserted" % k for k in ("whfast:jacobi", "whfast:democraticheliocentric", "whfast:whds",
                                             "whfast:barycentric", "saba", "mercurius", "trace")] + \
           ["step/massive_planet", "step/loose_tolerance", "step512/whfast512:asserted", "step512/padded",
@@ -367,6 +367,24 @@ def run_direct(c, ctx):
         ctx.nontrivial()
 
 
+def run_terminates(c, ctx):
+    """Termination and finiteness only (no oracle): cheap, so many more cases than `direct`."""
+    r0, v0, mu, dt, e, f = realise(c)
+    nt = classify(c, e, f, ctx)
+    w = worker("direct", _direct_call)
+    status, val = w.call(tuple(r0) + tuple(v0) + (mu, dt))
+    if status != "ok":
+        return not_returned(ctx, c, status, val, "reb_whfast_kepler_solver", r0=r0, v0=v0, mu=mu, dt=dt, e=e)
+    if not finite6(val):
+        raise Violation("reb_whfast_kepler_solver returns non-finite coordinates%s" % (
+            " [inside the known-finding region]" if in_known_region(c) else ""),
+            got=[repr(x) for x in val], r0=r0, v0=v0, mu=mu, dt=dt, e=e)
+    if in_known_region(c):
+        ctx.cls("in_hyperbolic_region")
+    if nt:
+        ctx.nontrivial()
+
+
 # ---------------------------------------------------------------------------------------------------------
 # entry point 2: one reb_simulation_step of a two-body simulation
 
@@ -601,6 +619,8 @@ def prepare(tier):
 def subs(tier):
     return [
         Sub("direct", run_direct, strategy=orbit, quick=3200, thorough=120000, shards_quick=8, shards_thorough=16),
+        Sub("terminates", run_terminates, strategy=orbit, quick=8000, thorough=400000, shards_quick=8,
+            shards_thorough=16),
         Sub("step", run_step, strategy=step_case([k for k in SCHEMES if k != "whfast512"], G_CHOICES),
             quick=1200, thorough=40000, shards_quick=8, shards_thorough=16),
         Sub("step512", run_step, strategy=step_case(["whfast512"], [1.0], w512=True), variant="avx512",
